@@ -1,21 +1,24 @@
 """C16 - template resolution and environment contract.
 
-Specs:   specs/TemplateLookupP.tla     P-layer (pure operators): nearest class of the chain having a template, user beats
-                                       built-in, history/order independence, instance-test membership, alias rule,
-                                       no silent replacement.  Ambiguous cells accept both readings.
-         specs/TemplateLookup.tla      I-layer: DSDLTemplateLoader's BFS with the shared class-keyed cache (probed before the
-                                       name test, filled for the class that had the template), get_source; and the environment
-                                       registry (constructor order of CodeGenEnvironment / DSDLCodeGenerator).  TLC checks I => P
-                                       over all pairs of template subsets of 5-class chains / trees / diamonds x lookup
-                                       sequences <= 3, and over all sequences of <= 2 additions.
-         specs/TemplateLookupTrace.tla T-layer: judges recorded observations of the real code with the P operators.
-spec->code: TLC emits every lookup history (stimulus + I-predicted answers) and every addition scenario; they are replayed on
-         the real DSDLTemplateLoader (scratch template directories + scratch package) / the real environment builder and
-         DSDLCodeGenerator with every real filter/test/global name; the observations go to the T-layer (verdict) and are
-         compared with the I-prediction (drift).
-code->spec: the real PyDSDL class hierarchy with random template subsets, random realizations of the directories (creation
-         order, several directories, distractor files), longer lookup sequences, the public DSDLCodeGenerator paths
-         (filter_type_to_template on real instances, generate_all), every instance test on real PyDSDL instances.
+Specs:   specs/TemplateLookupP.tla     P-layer (pure operators): nearest class of the chain having a template (level sets of the
+                                       __bases__ relation), user beats built-in, history / order independence, instance-test
+                                       membership, alias rule, no silent replacement.  Ambiguous cells accept both readings.
+         specs/TemplateLookup.tla      I-layer, part 1: DSDLTemplateLoader's BFS with the ONE class-keyed cache shared by both template
+                                       sets (probed before the name test, filled for the class that had the template), get_source.
+                                       Part 2: the environment registry (constructor order of CodeGenEnvironment + DSDLCodeGenerator).
+                                       TLC checks I => P over all pairs of template subsets of 5-class chains / trees / diamonds x
+                                       lookup sequences <= 3, and over all sequences of <= 2 additions.  The shared-cache design with
+                                       both sets present is REFUTED (history dependence); the per-set variant passes.
+         specs/TemplateLookupTrace.tla T-layer: judges recorded observations of the real code with the P operators only.
+         (static .cfg files in specs/ document the configurations; this driver generates the same files per shape into scratch.)
+spec->code: TLC emits every lookup history (stimulus + the I-layer's predicted answers) and every addition scenario; they are
+         replayed on real DSDLTemplateLoader objects (scratch template directories + a scratch package) and on the real
+         CodeGenEnvironmentBuilder / DSDLCodeGenerator with every real filter/test/global name; the observations go to the T-layer
+         (verdict) and are compared with the I-prediction (drift).
+code->spec: the real PyDSDL class hierarchy with random template subsets, random realizations of the directories (creation order,
+         several directories, distractor files, duplicates), histories <= 6, the real built-in packages, the public paths
+         (DSDLCodeGenerator.filter_type_to_template on real instances, generate_all, SupportGenerator), every instance test x every
+         value of a DSDL fixture (direct call and `is` inside a rendered template) x language.
 """
 import concurrent.futures
 import importlib
@@ -443,24 +446,24 @@ def model_jobs(ctx, variant):
         L = 3
         c1 = mk_cfg(ctx, "m_single_" + sh, shape=sh, modes=("fs", "pkg"), L=L, shared=True, invariants=ALL_INV)
         jobs.append((("single-set loaders (code as is), I=>P", sh, "Shape=%s Modes={fs,pkg} MaxLookups=%d SharedCache=TRUE" % (sh, L), True),
-                     (lambda c=c1: tlc.run_tlc(spec, c, ctx.scratch, workers=w, timeout=3000))))
+                     (lambda c=c1: tlc.run_tlc(spec, c, ctx.scratch, workers=w, timeout=3000, xmx="4g"))))
         c2 = mk_cfg(ctx, "m_perset_" + sh, shape=sh, modes=("both",), L=L, shared=False, invariants=ALL_INV)
         jobs.append((("both sets, cache entries valid per set (repaired design), I=>P", sh,
                       "Shape=%s Modes={both} MaxLookups=%d SharedCache=FALSE" % (sh, L), True),
-                     (lambda c=c2: tlc.run_tlc(spec, c, ctx.scratch, workers=w, timeout=3000))))
+                     (lambda c=c2: tlc.run_tlc(spec, c, ctx.scratch, workers=w, timeout=3000, xmx="4g"))))
     if not ctx.quick:
         c5 = mk_cfg(ctx, "m_single_l4", shape="chain4", modes=("fs", "pkg", "both"), L=4, shared=False, invariants=ALL_INV)
         jobs.append((("histories of length 4", "chain4", "Shape=chain4 Modes={fs,pkg,both} MaxLookups=4 SharedCache=FALSE", True),
-                     (lambda: tlc.run_tlc(spec, c5, ctx.scratch, workers=w, timeout=3000))))
+                     (lambda: tlc.run_tlc(spec, c5, ctx.scratch, workers=w, timeout=3000, xmx="4g"))))
     c3 = mk_cfg(ctx, "m_shared_neg", shape="chain4", modes=("both",), L=2, shared=True, invariants=("RefHistory",))
     jobs.append((("both sets, ONE cache keyed by class (code as is)", "chain4", "Shape=chain4 Modes={both} MaxLookups=2 SharedCache=TRUE", False),
-                 (lambda: tlc.run_tlc(spec, c3, ctx.scratch, workers=2, timeout=3000))))
+                 (lambda: tlc.run_tlc(spec, c3, ctx.scratch, workers=2, timeout=3000, xmx="2g"))))
     c4 = mk_cfg(ctx, "m_env", spec="EnvSpec", maxadds=2, invariants=("EnvRefines", "ErrOnlyIfTaken"))
     jobs.append((("environment registry, I=>P", "env", "MaxAdds=2 StrictGlobals=FALSE", True),
-                 (lambda: tlc.run_tlc(spec, c4, ctx.scratch, workers=w, timeout=3000))))
+                 (lambda: tlc.run_tlc(spec, c4, ctx.scratch, workers=w, timeout=3000, xmx="4g"))))
     c6 = mk_cfg(ctx, "m_env_strict", spec="EnvSpec", maxadds=1, strict=True, invariants=("EnvRefines",))
     jobs.append((("environment registry, strict reading of globals", "env", "MaxAdds=1 StrictGlobals=TRUE", False),
-                 (lambda: tlc.run_tlc(spec, c6, ctx.scratch, workers=2, timeout=3000))))
+                 (lambda: tlc.run_tlc(spec, c6, ctx.scratch, workers=2, timeout=3000, xmx="2g"))))
     return jobs
 
 
@@ -566,9 +569,9 @@ def emission_jobs(ctx, variant):
     jobs = []
     for sh, mode, L in ctx.pick(quick, thorough):
         cfg = mk_cfg(ctx, "e_%s_%s_%d" % (sh, mode, L), shape=sh, modes=(mode,), L=L, shared=(variant == "shared"), invariants=("Emit",))
-        jobs.append(((sh, mode, L), (lambda c=cfg: tlc.run_tlc(spec, c, ctx.scratch, workers=1, timeout=3000))))
+        jobs.append(((sh, mode, L), (lambda c=cfg: tlc.run_tlc(spec, c, ctx.scratch, workers=1, timeout=3000, xmx="2g"))))
     cfg2 = mk_cfg(ctx, "e_env", spec="EnvSpec", maxadds=2, invariants=("EnvEmit",))
-    jobs.append((("env",), (lambda: tlc.run_tlc(spec, cfg2, ctx.scratch, workers=1, timeout=3000))))
+    jobs.append((("env",), (lambda: tlc.run_tlc(spec, cfg2, ctx.scratch, workers=1, timeout=3000, xmx="2g"))))
     return jobs
 
 
